@@ -73,7 +73,7 @@ MUTANTS = [
  dict(id="C15", name="no_tail_truncation", edits=[(UH, "        impl->history.resize(impl->history_pos);", "        ;")]),
  dict(id="C15", name="seek_clamp_hi_wrong", edits=[(UH, "        distance  = impl->history.size() - impl->history_pos;", "        distance  = impl->history.size() - impl->history_pos - (impl->history.size() > 3 ? 1 : 0);")]),
  dict(id="C15", name="seek_clamp_lo_missing", edits=[(UH, "    if(dest < 0)\n        distance -= dest;", "    if(dest < -1)\n        distance -= dest;")]),
- dict(id="C15", name="replay_uses_old_value", edits=[(UH, "    rtosc_arg_t arg = rtosc_argument(msg,2);", "    rtosc_arg_t arg = rtosc_argument(msg,1);")]),
+ dict(id="C15", name="replay_uses_old_value", edits=[(UH, "    cb(setMessage(msg, 2).data());", "    cb(setMessage(msg, 1).data());")]),
  dict(id="C15", name="rewind_order_oldest_first", edits=[(UH, "        while(distance++)\n            impl->rewind(impl->history[--impl->history_pos].second);",
       "        { long n = -distance; long base = impl->history_pos - n; for(long q=0;q<n;++q) impl->rewind(impl->history[base+q].second); impl->history_pos = base; }")]),
  dict(id="C15", name="merge_only_newest_entry", edits=[(UH, "    for(int i=history_pos-1; i>=0; --i) {", "    for(int i=history_pos-1; i>=history_pos-1; --i) {")]),
@@ -89,14 +89,8 @@ MUTANTS = [
         else if(v < mn)""", """    } else if(type == 'f') {
         float v = value*(b-a) + a;
         if(v < mn)""")]),
- dict(id="C19", name="int_lower_clamp_to_max", edits=[(AU, """        else if(v < mn)
-            v = mn;
-
-        rtosc_message(msg, 256, path, "i", (int)roundf(v));""", """        else if(v < mn)
-            v = mx;
-
-        rtosc_message(msg, 256, path, "i", (int)roundf(v));""")]),
- dict(id="C19", name="int_truncates", edits=[(AU, '(int)roundf(v));', '(int)v);')]),
+ dict(id="C19", name="int_lower_clamp_to_max", edits=[(AU, "        else if(v < au.param_min)\n            v = au.param_min;", "        else if(v < au.param_min)\n            v = au.param_max;")]),
+ dict(id="C19", name="int_truncates", edits=[(AU, '(int)round(v));', '(int)v);')]),
  dict(id="C19", name="log_scale_not_exponentiated", edits=[(AU, "        if(au.map.control_scale == 1)\n            v = expf(v);", "        ;")]),
  dict(id="C19", name="channel_ignored", edits=[(AU, "        par_id = channel*128 + type;", "        par_id = type;")]),
  dict(id="C19", name="offset_sign_flipped_benign", expect=0, edits=[(AU, "    float center = (mn+mx)*(0.5 + au.map.offset/100.0);", "    float center = (mn+mx)*(0.5 - au.map.offset/100.0);")]),
@@ -192,7 +186,7 @@ MUTANTS = [
  # ---- C12 savefiles
  dict(id="C12", name="preset_default_ignores_selector", edits=[("src/cpp/default-value.cpp", "        strncat(default_variant, dependent_value,\n                buffersize - strlen(default_variant));", "        strncat(default_variant, \"0\",\n                buffersize - strlen(default_variant));")]),
  dict(id="C12", name="disabled_subtrees_not_pruned", edits=[(PC, "            bool res = rval.type == 'T' || (rval.type == 'i' && rval.val.i != 0);", "            bool res = true; (void)rval;")]),
- dict(id="C12", name="other_application_accepted", edits=[(SF, "    if(n <= 0 || strcmp(appbuf, appname) || vma > 255 || vmi > 255 || vre > 255)", "    if(n <= 0 || vma > 255 || vmi > 255 || vre > 255)")]),
+ dict(id="C12", name="other_application_accepted", edits=[(SF, "        if(n0 > 0 && !strncmp(file_content + n0, appname, name_len))\n        {\n            sscanf(file_content + n0 + name_len,", "        if(n0 > 0)\n        {\n            const size_t name_len = strcspn(file_content + n0, \" \");\n            sscanf(file_content + n0 + name_len,")]),
  dict(id="C12", name="foreign_header_first_check_removed_benign", expect=0, edits=[(SF, "    if(n <= 0 || vma > 255 || vmi > 255 || vre > 255)\n        return -bytes_read-1;\n    if(dispatcher)\n    {\n        dispatcher->rtosc_filever.major = vma;", "    if(0)\n        return -bytes_read-1;\n    if(dispatcher)\n    {\n        dispatcher->rtosc_filever.major = vma;")]),
  dict(id="C12", name="failed_dispatch_not_reported", edits=[(SF, "    return ok ? msgs_read : -rd_total-1;", "    return msgs_read;")]),
  dict(id="C12", name="floats_printed_lossy", edits=[("src/cpp/pretty-format.c", " = &((rtosc_print_options) { true, 2, \" \", 80, true});", " = &((rtosc_print_options) { false, 2, \" \", 80, true});")]),
